@@ -1,8 +1,10 @@
 import RpmVerif.Driver.Common
+import RpmVerif.Model.Accessors
 import RpmVerif.Model.Header
 import RpmVerif.Model.Cpio
 import RpmVerif.Model.AddData
 import RpmVerif.Driver.FileIterObs
+import RpmVerif.Driver.Hash
 import RpmVerif.Model.PayloadWriter
 /-!
 Driver for C07 (see harness/src/c07.rs for the request and observation formats).
@@ -30,7 +32,7 @@ does, past error items — ONCE; the items up to the first error (`uptoErr`, = `
 `iterateE_is_prefix_mem`) give the per-item part of the observation, the whole list gives `all=<k>:<classes>:<fnv>`
 (`FileIterObs.allObs`).  Spec for `all=`: the iterator must end (`fails:runaway` otherwise). -/
 
-def ops : List String := ["files", "filesraw"]
+def ops : List String := ["files", "filesraw", "filesz07"]
 
 /-! ## content generators (same as `content_of` in the harness) -/
 
@@ -275,7 +277,16 @@ def listArchive (sizes : List Nat) : Nat → Bytes → List (PayloadEntry × Byt
       | _ => ([(e, r.take fsz)], false)
     | _ => ([], false)
 
-def handleRaw (pkgHex : String) (impl : String) : String :=
+/-- the compressor `get_payload_compressor` reads (C05's accessor model) and whether `decompress_stream` has an arm for
+it in the build at hand (`feat=nobz`: rpm-rs with its default cargo features, i.e. without bzip2) -/
+def compressorOf (h : Hdr.Header) (nobz : Bool) : Out Nat × Bool :=
+  match RpmVerif.Acc.getPayloadCompressorVariant h with
+  | .ok v => (.ok v, v == 0 || Gen.cargoDefaultFeatureTypes.contains v || (!nobz && Gen.compressionVariants[v]? == some "Bzip2"))
+  | o => (o, false)
+
+/-- `dec` = what the streaming decoder hands out before it stops and whether it then fails (`filesz07`; the harness runs the
+codec crates), `none` for an uncompressed payload (`filesraw`) -/
+def handleRawWith (pkgHex : String) (dec : Option (Bytes × Bool)) (nobz : Bool) (impl : String) : String :=
   match bytesOfHex pkgHex with
   | none => badReq "hex"
   | some bs =>
@@ -284,6 +295,16 @@ def handleRaw (pkgHex : String) (impl : String) : String :=
       match fileEntries p.md.header with
       | none => answer "err-files" "dontcare" "foreign-header-rejected"
       | some fes =>
+        -- `files()`: `get_payload_compressor()?` then `decompress_stream(..)?` - an unknown name and a codec that is not
+        -- compiled in are errors of `files()` itself, whatever the payload holds
+        let (comp, supported) := compressorOf p.md.header nobz
+        if dec.isSome && (!comp.isOk || !supported) then
+          answer "err-files" (if impl == "err-files" then "holds" else "fails:unsupported-codec-read")
+            (if comp.isOk then "foreign-codec-not-compiled-in" else "foreign-compressor-unknown") else
+        let streaming := dec.isSome && comp != .ok 0
+        -- Model/Cpio.lean `filesChunked`: the iteration over the bytes decoded so far
+        let pcontent := match dec with | some (a, _) => a | none => p.content
+        let p : Hdr.Package := { p with content := pcontent }
         let sizes := fes.map (·.2.1)
         let paths := fes.map (·.1)          -- the header's file paths
         -- model: the iterator as it is (metadata index by `fileIndex`)
@@ -299,11 +320,20 @@ def handleRaw (pkgHex : String) (impl : String) : String :=
         -- contents the package means for a header path: those of the archive entries that designate it
         let byName (hp : Bytes) : List Bytes := (arch.filter fun a => designated a == some hp).map (·.2)
         let (oks, errAt) := splitIter its
+        -- the harness' `dg`: sha256(content) against the recorded digest. For an uncompressed archive the generator contract
+        -- (the digest is that of the complete content meant for this path) answers it; a decoder over a DAMAGED stream can
+        -- hand out wrong bytes before it notices (or without noticing), so there the driver's own SHA-256 decides
+        let shaMatches (dgst c : Bytes) : Bool := (hexOfBytes (Hash.sha256L c)).toUTF8.toList == dgst
         let mItems : List Item := oks.filterMap fun (i, _, c) => (fes[i]?).map fun (path, size, mode, dgst) =>
           ⟨path, size, c, mode,
-           -- generator contract: the digest is that of the complete content meant for this path
-           if dgst.isEmpty then "n" else if (byName path).head? == some c && c.length == size then "1" else "0"⟩
-        let model := obsOf mItems "-" errAt (FileIterObs.allObs all fun i => paths.getD i [])
+           if dgst.isEmpty then "n"
+           else if streaming then (if shaMatches dgst c then "1" else "0")
+           else if (byName path).head? == some c && c.length == size then "1" else "0"⟩
+        -- where a decoder is left after it (or the cpio reader on top of it) failed is not modelled: the drained view
+        -- `all=` is predicted only when no error item occurs; up to the first error the items are predicted exactly
+        let allField := if streaming && errAt.isSome then (match parseImpl impl with | some o => o.all | none => "?")
+          else FileIterObs.allObs all fun i => paths.getD i []
+        let model := obsOf mItems "-" errAt allField
         -- spec: pairing by name, judged on the implementation's observation
         let unknownAt := reach.findIdx? fun a => (designated a).isNone
         let verdict := match parseImpl impl with
@@ -325,7 +355,8 @@ def handleRaw (pkgHex : String) (impl : String) : String :=
                   -- the item IS the content of the (only) archive entry naming this file, but the archive entry's own `filesize`
                   -- is not the size the rpm header records for the file (`C07.item_length_eq_recorded_iff`): its own class
                   else if i.len ≠ i.size then some (if clean then "recorded-size-disagrees" else "short-content")
-                  else if i.dg == "0" then some "digest"
+                  -- a content the damaged stream itself delivers wrong is the package's inconsistency, not the iterator's
+                  else if i.dg == "0" && !(streaming && cands.all (fun c => !shaMatches fe.2.2.2 c)) then some "digest"
                   else none
             let fails := (o.items.zipIdx.filterMap fun (i, j) => judge j i)
             if o.all == "runaway" then "fails:runaway"
@@ -370,19 +401,30 @@ def handleRaw (pkgHex : String) (impl : String) : String :=
         let nuls := match arch.head? with
           | some (.cpio e, _) => if (p.content.drop 94).take 8 == fmtHex8 (e.name.length + 1) then "" else "-padded-name"
           | _ => ""
+        let zs := match dec with
+          | some (_, failed) => if !streaming then "-nocodec" else if failed then "-z-failed" else "-z-eof"
+          | none => ""
         -- numeric fields of the first entry spelled with upper-case digits / a leading `+` (both accepted by `from_str_radix`)
         let alt := match arch.head? with
           | some (.cpio _, _) => if ((p.content.drop 6).take 104).any (fun b => b == 43 || (65 ≤ b.toNat && b.toNat ≤ 70)) then "-altspelling" else ""
           | some (.stripped _, _) => if ((p.content.drop 6).take 8).any (fun b => b == 43 || (65 ≤ b.toNat && b.toNat ≤ 70)) then "-altspelling" else ""
           | none => ""
         let nuls := if alt == "" then nuls else ""
-        answer model verdict s!"foreign-{kind}-{shape}{plain}{nuls}{alt}"
+        answer model verdict s!"foreign-{kind}-{shape}{plain}{nuls}{alt}{zs}"
     | _ => answer "err-parse" "dontcare" "foreign-unparsable"
+
+def handleRaw (pkgHex : String) (impl : String) : String := handleRawWith pkgHex none false impl
 
 def handle (op : String) (args : List String) (impl : String) : String :=
   match op, args with
   | "files", _ => handleFiles args impl
   | "filesraw", [pkg] => handleRaw pkg impl
+  | "filesz07", pkg :: dechex :: how :: rest =>
+    let nobz := rest.contains "feat=nobz"
+    if how == "none" then handleRawWith pkg (some ([], true)) nobz impl
+    else match bytesOfHex dechex with
+      | some d => handleRawWith pkg (some (d, how == "fail")) nobz impl
+      | none => badReq "decoded"
   | _, _ => badReq "args"
 
 end RpmVerif.Driver.C07
